@@ -95,6 +95,36 @@ def run(chk, replay=None):
         chk.count()
         if rc != 0:
             chk.violate('CLI: run aborted on odd lines', {'rc': rc, 'stderr': se[-400:].decode('utf-8', 'replace')}, tags=['cli', 'abort'])
+    # blank, garbage and non-object lines in the MIDDLE of a log, through every input channel and both output channels (the progress
+    # bar only exists with --outputFile; its maximum is counted on the file as stored, so on a .gz input it is reached early)
+    cfg = Cfg(nums=True)
+    mids = [b'', b'', b'   ', b'\t', b'not json at all', b'[1,2]', b'"s"', b'5', b'{"a":1', b'2024-01-01T00:00:00.000+0000 I NETWORK  [conn1] end connection']
+    for rep in range(6 if th else 3):
+        ls = []
+        for i in range(rng.choice([12, 40, 150])):
+            ls.append(rng.choice(good))
+            if rng.random() < 0.4: ls.append(rng.choice(mids))
+            if rng.random() < 0.1: ls += [b'', b'']
+        ls += [b'', good[0], b'', b'', good[1]]
+        data = b'\n'.join(ls) + rng.choice([b'\n', b'', b'\n\n'])
+        want = streamlib.impl_stream(cfg, [{'data': data}])[0][1]
+        mwant = streamlib.model_stream(cfg, [{'data': data}])[0][1]
+        chk.count(); chk.traces += 1
+        if want != mwant: chk.disagree('log with interior blank / garbage lines', {'lines': len(ls)}, len(want), len(mwant))
+        with tempfile.TemporaryDirectory() as d:
+            chans = {'file': (os.path.join(d, 'in.log'), data), 'gz': (os.path.join(d, 'a.log.gz'), streamlib.gz_bytes(data)), 'gz3': (os.path.join(d, 'b.log.GZ'), streamlib.gz_bytes(data, members=3))}
+            for chan, (f, raw) in chans.items():
+                open(f, 'wb').write(raw)
+                for outc in ('stdout', 'ofile'):
+                    o = os.path.join(d, 'out_%s_%s' % (chan, outc))
+                    rc, so, se = streamlib.cli_run(['redact', f] + cfg.cli_flags() + (['-o', o] if outc == 'ofile' else []))
+                    got = open(o, 'rb').read() if outc == 'ofile' and os.path.exists(o) else so
+                    chk.count()
+                    if rc != 0 or got != want:
+                        nl = got.count(b'\n')
+                        chk.violate('CLI: blank or odd lines inside a log stopped the run early or disturbed other lines', {'channel': chan, 'output': outc, 'rc': rc, 'lines_in': len(ls),
+                                    'lines_out': nl, 'lines_expected': want.count(b'\n'), 'first_lines': [l.decode('utf-8', 'replace')[:80] for l in ls[:8]], 'stderr': se[-200:].decode('utf-8', 'replace')}, tags=['cli', 'abort', chan, outc])
+    chk.streams.append({'stream': 'CLI: logs with interior blank / garbage lines x {file, gzip, 3-member gzip} x {stdout, --outputFile}', 'logs': 6 if th else 3})
     chk.sample({'line': odd[7][:200].decode('utf-8', 'replace')}); chk.sample({'line': odd[-20][:200].decode('utf-8', 'replace')})
     chk.assumptions += ["stack depth and memory for extreme nesting are runtime behaviour: exercised up to 20,000 levels, not modelled",
                         "key paths handed to the scalar step are non-empty by construction in the model (init ++ [last]); the absence of other panics rests on the harness observing none"]
